@@ -249,6 +249,21 @@ int main ()
     O.puti (finite ? 1 : 0); O.puti (cs->fields == n ? 1 : 0); O.put ((double) e1); O.put ((double) e2); O.put ((double) e3); O.put ((double) e4); };
 
 
+  // oracle: the workers sample::get_covariance (mode, n) / get_crosscovariance (mode, lag, n), called on an object whose own
+  // sample_size is m (as composite does with n_A, n_B), against the brute-force double sums for n.  Output: max relative errors
+  OP("o.c06.worker") { unsigned n = A.n(); unsigned m = A.n(); unsigned lag = A.n(); stub_mode s; s.cv = A.d(); unsigned k = A.n(); for (unsigned i=0;i<k;i++) s.x.push_back (A.d());
+    epsic::single smp (new epsic::mode); smp.sample_size = m;
+    Matrix<4,4,double> cov = smp.sample::get_covariance (&s, n), xc = smp.sample::get_crosscovariance (&s, lag, n);
+    long double e1 = 0, e2 = 0, scale = 1e-300L; Matrix<4,4,double> c1 = s.get_covariance(); for (int i=0;i<4;i++) for (int j=0;j<4;j++) scale = std::max (scale, fabsl ((long double)c1[i][j]));
+    for (unsigned l=0;l<s.x.size();l++) scale = std::max (scale, fabsl ((long double) s.get_crosscovariance(l)[0][0]));
+    for (int i=0;i<4;i++) for (int j=0;j<4;j++) { long double sc = 0, sx = 0;
+      for (unsigned a=0;a<n;a++) for (unsigned b=0;b<n;b++) {
+        unsigned l0 = (a > b) ? a-b : b-a; sc += (l0 == 0) ? (long double) s.get_covariance()[i][j] : (long double) s.get_crosscovariance (l0)[i][j];
+        unsigned l1 = (lag*n + a > b) ? lag*n + a - b : b - (lag*n + a); sx += (long double) s.get_crosscovariance (l1)[i][j]; }
+      sc /= (long double)n*n; sx /= (long double)n*n;
+      e1 = std::max (e1, fabsl (cov[i][j] - sc) / scale); e2 = std::max (e2, fabsl (xc[i][j] - sx) / scale); }
+    O.put ((double) e1); O.put ((double) e2); };
+
   // oracle: post-detection boxcar sample over a constant-field stub: every generated sample equals the stub's Stokes
   // parameters (a running mean of identical instances), the first sample primes smooth-1 instances and every sample draws n
   OP("o.c06.boxcarsample") { unsigned smooth = A.n(); unsigned n = A.n(); unsigned k = A.n(); stub_mode* s = new stub_mode; s->cv = 1;
@@ -324,6 +339,21 @@ int main ()
     epsic::square_modulated_mode live (s1, w, n1); live.compute_cross_correlation (n2); epsic::square_modulated_mode fresh (s2, w, n2);
     double worst = 0; for (unsigned l=0; l<w+1; l++) worst = std::max (worst, std::fabs (live.get_crosscovariance(l)[0][0] - fresh.get_crosscovariance(l)[0][0]));
     O.put (worst); };
+  // oracle (history): the modulation index of a log-normal modulator is changed after a smoothing / rectangular model has been
+  // built on it (and used): every reported moment must be the one of a model freshly built on a modulator with the new index.
+  // Output: max relative |difference| over mean, covariance and the lag terms 0..w
+  OP("o.c07.rebeta") { std::string kind = A.next(); unsigned w = A.n(); unsigned n = A.n(); double b1 = A.d(); double b2 = A.d(); unsigned use = A.n();
+    Stokes<double> S (2, 0.5, -0.25, 1); epsic::mode* base1 = new epsic::mode; base1->set_Stokes (S); epsic::mode* base2 = new epsic::mode; base2->set_Stokes (S);
+    epsic::lognormal_mode* l1 = new epsic::lognormal_mode (base1, b1); epsic::lognormal_mode* l2 = new epsic::lognormal_mode (base2, b2);
+    epsic::mode* live; epsic::mode* fresh;
+    if (kind == "square") { live = new epsic::square_modulated_mode (l1, w, n); } else if (kind == "boxcar") { live = new epsic::boxcar_modulated_mode (l1, w); } else { live = l1; }
+    if (use) { live->get_mean(); live->get_covariance(); for (unsigned l=0;l<=w;l++) live->get_crosscovariance (l); }
+    l1->set_beta (b2);
+    if (kind == "square") { fresh = new epsic::square_modulated_mode (l2, w, n); } else if (kind == "boxcar") { fresh = new epsic::boxcar_modulated_mode (l2, w); } else { fresh = l2; }
+    double worst = 0; auto cmp = [&](double x, double y) { worst = std::max (worst, std::fabs (x - y) / std::max (1e-300, std::max (std::fabs (x), std::fabs (y)))); };
+    for (int i=0;i<4;i++) { cmp (live->get_mean()[i], fresh->get_mean()[i]); for (int j=0;j<4;j++) { cmp (live->get_covariance()[i][j], fresh->get_covariance()[i][j]);
+      for (unsigned l=0;l<=w;l++) cmp (live->get_crosscovariance(l)[i][j], fresh->get_crosscovariance(l)[i][j]); } }
+    O.put (worst); };
   // oracle (log-normal): mean and variance of the generated factors by Gauss-Hermite quadrature through the deviate source
   OP("o.c07.lognormal") { double beta = A.d(); epsic::mode base; epsic::lognormal_mode ln (&base, beta); ln.set_normal (&g_bm);
     static const double gx[16] = { 0.27348104613815245, 0.82295144914465589, 1.3802585391988808, 1.9517879909162540, 2.5462021578474814, 3.1769991619799560, 3.8694479048601227, 4.6887389393058184,
@@ -389,6 +419,22 @@ int main ()
     unsigned long na = 0, nb = 0; long bad = 0;
     for (char c : pat) { if (c == 'A') { double v = A_->modulation(); if (v != double(na)) bad++; na++; } else { double v = B_->modulation(); if (v != double(nb) + 0.5) bad++; nb++; } }
     // every draw is made exactly once: the number of draws equals the larger request count
+    if (co.k != std::max (na, nb)) bad++;
+    O.put ((double) bad); };
+  // oracle (history): a factor is requested from one mode while the other mode does not exist yet (the request must fail
+  // without consuming or delivering anything), then the other mode is created and the interleaving continues: the pairing is
+  // that of a coordinator on which nothing happened before
+  OP("o.c08.early") { unsigned which = A.n(); unsigned tries = A.n(); std::string pat = A.next();
+    struct counting : public epsic::covariant_coordinator { unsigned long k = 0; counting () : covariant_coordinator (0.0) {}
+      void get_modulation (double& a, double& b) { a = double(k); b = double(k) + 0.5; k++; }
+      double get_mod_mean (unsigned) const { return 1; } double get_mod_variance (unsigned) const { return 1; } } co;
+    epsic::mode ma, mb; epsic::modulated_mode* M[2] = { 0, 0 }; long bad = 0;
+    M[which] = co.get_modulated_mode (which, which ? &mb : &ma);
+    for (unsigned t=0;t<tries;t++) { try { M[which]->modulation(); bad++; } catch (std::exception&) { } }
+    if (co.k != 0) bad++;
+    M[1-which] = co.get_modulated_mode (1-which, which ? &ma : &mb);
+    unsigned long na = 0, nb = 0;
+    for (char c : pat) { if (c == 'A') { double v = M[0]->modulation(); if (v != double(na)) bad++; na++; } else { double v = M[1]->modulation(); if (v != double(nb) + 0.5) bad++; nb++; } }
     if (co.k != std::max (na, nb)) bad++;
     O.put ((double) bad); };
   // oracle: moments of the delivered pairs by 2-D Gauss-Hermite quadrature through the deviate source
